@@ -20,8 +20,8 @@ import (
 	"fmt"
 	"os"
 	"sync"
+	"sync/atomic"
 	"testing"
-	"time"
 
 	"github.com/cnotch/ipchub/av/format/flv"
 	"github.com/cnotch/ipchub/media/cache"
@@ -38,6 +38,7 @@ func TestMain(m *testing.M) {
 		// oracle (tag-count), not by reading logs
 		xlog.ReplaceGlobal(xlog.New(xlog.NewNopCore()))
 	}
+	installMuxHook()
 	evid.Main(m, "C08")
 }
 
@@ -129,33 +130,60 @@ func packetize(s *Scenario) ([]*flv.Tag, *failure) {
 // mux is layer B's producer: flv.Muxer with its own goroutine. Every frame
 // must come out as one tag, after metadata and configuration.
 func mux(s *Scenario) ([]*flv.Tag, byte, *failure) {
-	rec := &recorder{note: make(chan struct{}, 1)}
+	rec := &recorder{}
 	vm := s.partialMeta()
 	m, err := flv.NewMuxer(vm, s.audioMeta(), rec, xlog.L())
 	if err != nil {
 		return nil, 0, failf("muxer-error", "NewMuxer: %v", err)
 	}
+	defer muxPops.Delete(m)
 	defer m.Close()
-	s.complete(vm) // the in-band parameter sets arrive before the first frame
-	for _, f := range s.Frames {
+	for i, f := range s.Frames {
+		if i == s.AudioLead {
+			// the leading audio frames have been converted (or dropped) by now;
+			// then the in-band parameter sets arrive, before the first video frame
+			if i > 0 && !waitFor(func() bool { return popCount(m) >= i+1 }) {
+				return nil, 0, failf("tag-count", "the muxer goroutine took %d of %d frames and then nothing for 30 s", popCount(m)-1, i)
+			}
+			s.complete(vm)
+		}
 		if err := m.WriteFrame(s.codecFrame(f)); err != nil {
 			return nil, 0, failf("muxer-error", "WriteFrame: %v", err)
 		}
 	}
-	want := 1 + s.configCount() + len(s.Frames)
-	deadline := time.NewTimer(30 * time.Second)
-	defer deadline.Stop()
-	for rec.count() < want {
-		select {
-		case <-rec.note:
-		case <-time.After(20 * time.Millisecond):
-		case <-deadline.C:
-			return nil, 0, failf("tag-count", "the muxer produced %d tags for %d frames (+%d metadata/configuration) and then nothing for 30 s", rec.count(), len(s.Frames), 1+s.configCount())
-		}
+	// every frame has been taken off the queue and converted when the goroutine
+	// reaches its schedule point before the (len+1)-th pop
+	if !waitFor(func() bool { return popCount(m) >= len(s.Frames)+1 }) {
+		return nil, 0, failf("tag-count", "the muxer goroutine took %d of %d frames and then nothing for 30 s (%d tags produced)", popCount(m)-1, len(s.Frames), rec.count())
 	}
 	rec.mu.Lock()
 	defer rec.mu.Unlock()
 	return append([]*flv.Tag(nil), rec.tags...), m.TypeFlags(), nil
+}
+
+// muxPops counts, per flv.Muxer, how often its goroutine reached the schedule
+// point "flvmux.before-pop" (build tag verif): k+1 visits = k frames converted.
+var muxPops sync.Map // *flv.Muxer -> *int64
+var lastNewMuxer atomic.Value
+
+func installMuxHook() {
+	flv.VerifSetSched(func(name string, obj interface{}) {
+		if name != "flvmux.before-pop" {
+			return
+		}
+		c, loaded := muxPops.LoadOrStore(obj, new(int64))
+		if !loaded {
+			lastNewMuxer.Store(obj)
+		}
+		atomic.AddInt64(c.(*int64), 1)
+	})
+}
+
+func popCount(m interface{}) int {
+	if c, ok := muxPops.Load(m); ok {
+		return int(atomic.LoadInt64(c.(*int64)))
+	}
+	return 0
 }
 
 func write(flags byte, tags []*flv.Tag) ([]byte, *failure) {
@@ -238,7 +266,7 @@ func expectJoin(s *Scenario, withMeta bool, j Join) (exp []expTag, zeroBase bool
 type caseStats struct {
 	key, ptsNeDts, ptsBack, big, tiny, boundary, older, first32, ext24, aacHdr bool
 	views                                                                      int
-	gopJoin, midJoin                                                           bool
+	gopJoin, midJoin, lead, leadDropped                                        bool
 }
 
 func (s *Scenario) staticStats() caseStats {
@@ -280,8 +308,10 @@ func (s *Scenario) staticStats() caseStats {
 // runScenario executes the whole case and returns the first failure.
 func runScenario(s *Scenario) (*failure, caseStats) {
 	cs := s.staticStats()
-	judge := func(v *clientView) *failure {
-		fl, st := checkClient(s, v)
+	var judgeOn func(es *Scenario, v *clientView) *failure
+	judge := func(v *clientView) *failure { return judgeOn(s, v) }
+	judgeOn = func(es *Scenario, v *clientView) *failure {
+		fl, st := checkClient(es, v)
 		cs.views++
 		if st.Older > 0 {
 			cs.older = true
@@ -361,7 +391,21 @@ func runScenario(s *Scenario) (*failure, caseStats) {
 		if flags != s.typeFlags() {
 			return failf("type-flags", "Muxer.TypeFlags() = %#02x, stream has video and audio=%v", flags, s.Audio), cs
 		}
-		for _, j := range s.Joins {
+		// frames that reached the muxer ahead of the parameter sets may have been
+		// dropped (all of them) or kept for after the configuration tags
+		es := s
+		if s.AudioLead > 0 && len(tags) != 1+s.configCount()+len(s.Frames) {
+			c := *s
+			c.Frames = s.Frames[s.AudioLead:]
+			es = &c
+			cs.leadDropped = true
+		}
+		joins := s.Joins
+		if s.AudioLead > 0 {
+			cs.lead = true
+			joins = append([]Join{{At: 0, Mode: "cache"}}, joins...) // the client that was attached all along
+		}
+		for _, j := range joins {
 			if j.At > len(tags) {
 				j.At = len(tags)
 			}
@@ -369,14 +413,14 @@ func runScenario(s *Scenario) (*failure, caseStats) {
 			if fl != nil {
 				return fl, cs
 			}
-			exp, zero, gopLen := expectJoin(s, true, j)
+			exp, zero, gopLen := expectJoin(es, true, j)
 			if gopLen > 1 {
 				cs.gopJoin = true
 			}
 			if j.At > 1+s.configCount() {
 				cs.midJoin = true
 			}
-			if fl := judge(&clientView{Name: fmt.Sprintf("client joining before stream tag %d (cache_gop=%v)", j.At, j.CacheGop), Bytes: b, Expected: exp, ZeroBase: zero}); fl != nil {
+			if fl := judgeOn(es, &clientView{Name: fmt.Sprintf("client joining before stream tag %d (cache_gop=%v)", j.At, j.CacheGop), Bytes: b, Expected: exp, ZeroBase: zero}); fl != nil {
 				return fl, cs
 			}
 		}
@@ -398,7 +442,7 @@ func record(s *Scenario, cs caseStats) {
 	for name, on := range map[string]bool{
 		"has-key-frame": cs.key, "pts!=dts": cs.ptsNeDts, "pts<dts": cs.ptsBack, "nal>64KiB": cs.big, "nal-minimal-size": cs.tiny,
 		"time-boundary-crossed": cs.boundary, "older-than-origin-tag": cs.older, "first-tag-ms=2^32-1": cs.first32,
-		"join-with-cached-gop": cs.gopJoin, "timestamp-extended-byte-written": cs.ext24, "observed:aac-tag-header-not-0xAF(not judged)": cs.aacHdr, "join-mid-stream": cs.midJoin,
+		"join-with-cached-gop": cs.gopJoin, "audio-ahead-of-parameter-sets": cs.lead, "audio-ahead-of-parameter-sets:dropped": cs.leadDropped, "timestamp-extended-byte-written": cs.ext24, "observed:aac-tag-header-not-0xAF(not judged)": cs.aacHdr, "join-mid-stream": cs.midJoin,
 	} {
 		if on {
 			evid.Class(name)
@@ -470,6 +514,8 @@ var layerConfigs = []struct {
 func TestPacketizers(t *testing.T) {
 	evid.Rule(ruleText)
 	evid.Assume("AAC frames carry PTS = DTS (aac_depacketizer.go always sets both to the same value); DTS >= 0; consecutive tags of one client are less than 2^31 ms apart")
+	evid.Assume("H.265 key frame = IRAP with nal_unit_type 16..21 (BLA_W_LP, BLA_W_RADL, BLA_N_LP, IDR_W_RADL, IDR_N_LP, CRA_NUT), all six generated; the reserved IRAP types 22/23 (RSV_IRAP_VCL22/23, H.265 Table 7-1: reserved, decoders ignore them, no conforming stream of the current edition carries them) are not generated and not judged")
+	evid.Assume("AAC frames that reach the muxer before the in-band parameter sets are known may be dropped or delivered after the configuration tags (the statement fixes neither); they must never precede metadata or configuration")
 	evid.Checks(1200, 20000)
 	for _, c := range layerConfigs {
 		c := c
